@@ -11,8 +11,11 @@
                      previous connection left unread (v4 returns it at once, in front of them);
                      poll() then goes on into select(), which pops the oldest queued notification.
                      A CONNACK the state machine refuses (receive_maximum 0: commit b2fc5b9, F37)
-                     makes poll() return the error through `?` BEFORE select(): clean() does NOT run,
-                     the connection stays up ([connected5] stays true) and the next poll() uses it.
+                     ends the connection attempt: clean() runs (network = None, pending rebuilt as
+                     for any failure; pending.clear() for !session_present has already happened) and
+                     poll() returns the error; the next poll() reconnects (fix: commit 6b2911f, F38).
+                     Before it poll() returned the error through `?` BEFORE select(): clean() did NOT
+                     run, the connection stayed up and the next poll() used it ([lstep5_keep]).
       errors         a v5 state error, or the connection ending inside/after a read batch
                      ([LE5Aborted]); DISCONNECT from the server is a state error (E5ServerDisconnect)
                      raised by the read batch like any other.
@@ -109,7 +112,7 @@ Fixpoint read_batch5 (s : state5) (pkts : list packet5) (buf : list packet5) : O
 Definition arm_ready5 (l : lstate5) : bool :=
   connected5 l && match s5_events (st5 l) with [] => true | _ => false end.
 
-Definition lstep5_gen (te : lstate5 -> bool) (lc : lstate5 -> lstate5) (l : lstate5) (o : lop5) : lres5 :=
+Definition lstep5_gen (te : lstate5 -> bool) (lc : lstate5 -> lstate5) (refused_closes : bool) (l : lstate5) (o : lop5) : lres5 :=
   let fail_with (l : lstate5) (e : lerr5) := Failed5 (lc l) e in
   match o with
   | UserSend5 r => Stepped5 (mkLoop5 (st5 l) (pending5 l) (chan5 l ++ [r]) (connected5 l) (wire5 l) (yielded5 l))
@@ -164,13 +167,18 @@ Definition lstep5_gen (te : lstate5 -> bool) (lc : lstate5 -> lstate5) (l : lsta
         let l1 := mkLoop5 (st5 l) (if sp then pending5 l else []) (chan5 l) true [] (yielded5 l) in
         match handle_incoming_packet5 (st5 l) (P5ConnAck sp 0 rm tam) with
         | Ok (s', _) => Stepped5 (with_st5 l1 s')
-        | Err (s', e) => Failed5 (with_st5 l1 s') (LE5State e)      (* no clean(): the connection stays *)
+        | Err (s', e) =>
+            if refused_closes then fail_with (with_st5 l1 s') (LE5State e)
+            else Failed5 (with_st5 l1 s') (LE5State e)      (* before commit 6b2911f: no clean(), the connection stays *)
         | Panic t => LPanic5 t
         end
   end.
 
-Definition lstep5 := lstep5_gen take_enabled5 loop_clean5.
-Definition lstep5_orig := lstep5_gen take_enabled5_orig loop_clean5_orig.
+Definition lstep5 := lstep5_gen take_enabled5 loop_clean5 true.
+(** before commit 6b2911f only (F38) *)
+Definition lstep5_keep := lstep5_gen take_enabled5 loop_clean5 false.
+(** before commits a6a5e44, 0960300 and 6b2911f *)
+Definition lstep5_orig := lstep5_gen take_enabled5_orig loop_clean5_orig false.
 
 Definition lnext5_gen (stp : lstate5 -> lop5 -> lres5) (l : lstate5) (o : lop5) : option lstate5 :=
   match stp l o with
